@@ -15,10 +15,17 @@ class Case:
         return "None" if self.value is None else canon(self.value, rd, self.stmt, params)
 
 
-def canon_guards(mod, node, fn, rd, params=()):
+def canon_guards(mod, node, fn, rd, params=(), skip_asserts=False):
     """[(canonical text, polarity, parsed canonical test)] of the conditions dominating `node`"""
     out = []
     for t, pol in dominating_guards(mod, node, stop=fn):
+        if skip_asserts:
+            # an assert states a precondition (violations raise); it is not part of the decision
+            top = t
+            while isinstance(mod.parent.get(top), (ast.BoolOp, ast.UnaryOp)):
+                top = mod.parent.get(top)
+            if isinstance(mod.parent.get(top), ast.Assert):
+                continue
         st = rd.stmt_of(t) if rd is not None else None
         txt = canon(t, rd, st if st is not None else (node if isinstance(node, ast.stmt) else None), params)
         try:
@@ -29,7 +36,7 @@ def canon_guards(mod, node, fn, rd, params=()):
     return out
 
 
-def result_cases(mod, fn, rd, params=()):
+def result_cases(mod, fn, rd, params=(), skip_asserts=False):
     """Every (value, guards) pair the function may return.  `return v` with v a local that has several reaching
     definitions is expanded into one case per definition (guards = those of the defining statement; a definition made
     unconditionally at the top acts as the default)."""
@@ -37,12 +44,12 @@ def result_cases(mod, fn, rd, params=()):
     rets = [r for r in walk_no_nested(fn) if isinstance(r, ast.Return)]
     for r in rets:
         v = r.value
-        rg = canon_guards(mod, r, fn, rd, params)
+        rg = canon_guards(mod, r, fn, rd, params, skip_asserts)
         if isinstance(v, ast.Name) and v.id not in params:
             defs = [d for d in rd.defs(v.id, r)]
             if len(defs) > 1 and all(d.kind == "assign" and d.node is not None for d in defs):
                 for d in defs:
-                    cases.append(Case(d.node, canon_guards(mod, d.stmt, fn, rd, params) + rg, d.stmt, via_var=v.id))
+                    cases.append(Case(d.node, canon_guards(mod, d.stmt, fn, rd, params, skip_asserts) + rg, d.stmt, via_var=v.id))
                 continue
         cases.append(Case(v, rg, r))
     # falling off the end returns None
@@ -68,3 +75,199 @@ def guards_not_none(guards, text):
         if pol and isinstance(n, ast.Call) and norm(n.func) == "isinstance" and norm(n.args[0]) == text and "None" not in norm(n.args[1]):
             return True
     return False
+
+
+class Collected:
+    """one way a function adds an element to the list it returns:  for var in iter [...nested] if guards: add elem"""
+
+    def __init__(self, elem, iters, guards, node, how):
+        self.elem, self.iters, self.guards, self.node, self.how = elem, iters, guards, node, how
+
+
+def collected(mod, fn, rd, params=(), helpers=None, result=None):
+    """Normal form of list-building code.  Handles
+        res = []; for v in IT: [if G:] res.append(E) | res.extend(E for w in IT2 if G2) ; return res
+        return [E for v in IT if G]            (possibly through a local)
+        res.extend(..generator..) / res += [..]
+    Returns (list of Collected, name of the result variable or None).  iters: [(target text, iterable canonical text,
+    iterable node)] from the outermost loop inwards; guards: canonical (text, polarity, node) conditions between the
+    outermost loop and the element."""
+    out = []
+    rets = [r for r in walk_no_nested(fn) if isinstance(r, ast.Return) and r.value is not None]
+    names = set()
+    comps = []
+    for r in rets:
+        v = r.value
+        if isinstance(v, ast.Name):
+            names.add(v.id)
+            for d in rd.defs(v.id, r):
+                if d.kind == "assign" and isinstance(d.node, (ast.ListComp, ast.SetComp, ast.GeneratorExp)):
+                    comps.append((d.node, d.stmt))
+                elif d.kind == "assign" and isinstance(d.node, ast.Call) and norm(d.node.func) in ("list", "set", "sorted") and d.node.args and isinstance(d.node.args[0], (ast.ListComp, ast.GeneratorExp, ast.SetComp)):
+                    comps.append((d.node.args[0], d.stmt))
+        elif isinstance(v, (ast.ListComp, ast.SetComp, ast.GeneratorExp)):
+            comps.append((v, r))
+        elif isinstance(v, ast.Call) and norm(v.func) in ("list", "set", "sorted") and v.args and isinstance(v.args[0], (ast.ListComp, ast.GeneratorExp, ast.SetComp)):
+            comps.append((v.args[0], r))
+    if result is not None:
+        names.add(result)
+
+    def cn(e, at):
+        return canon(e, rd, at, params, helpers)
+
+    def comp_entry(c, at, outer_iters, outer_guards, how):
+        iters = list(outer_iters)
+        guards = list(outer_guards)
+        for g in c.generators:
+            iters.append((norm(g.target), cn(g.iter, at), g.iter))
+            for cond in g.ifs:
+                t = cn(cond, at)
+                try:
+                    pn = ast.parse(t, mode="eval").body
+                except SyntaxError:
+                    pn = cond
+                guards.append((t, True, pn))
+        out.append(Collected(c.elt, iters, guards, c, how))
+
+    for c, at in comps:
+        comp_entry(c, at, [], [], "comprehension")
+
+    def enclosing(node):
+        """loops (outermost first) and guards between the function and node"""
+        chain = []
+        cur = node
+        while cur is not None and cur is not fn:
+            par = mod.parent.get(cur)
+            if isinstance(par, ast.For) and cur in par.body:
+                chain.append(par)
+            cur = par
+        chain.reverse()
+        st = node if isinstance(node, ast.stmt) else rd.stmt_of(node)
+        iters = [(norm(lp.target), cn(lp.iter, lp), lp.iter) for lp in chain]
+        guards = canon_guards(mod, node, fn, rd, params)
+        return iters, guards
+
+    for n in walk_no_nested(fn):
+        if isinstance(n, ast.Call) and isinstance(n.func, ast.Attribute) and isinstance(n.func.value, ast.Name) and n.func.value.id in names:
+            if n.func.attr in ("append", "add") and len(n.args) == 1:
+                iters, guards = enclosing(n)
+                out.append(Collected(n.args[0], iters, guards, n, "append"))
+            elif n.func.attr in ("extend", "update") and len(n.args) == 1:
+                a = n.args[0]
+                iters, guards = enclosing(n)
+                if isinstance(a, (ast.ListComp, ast.GeneratorExp, ast.SetComp)):
+                    comp_entry(a, rd.stmt_of(n), iters, guards, "extend")
+                else:
+                    out.append(Collected(ast.Starred(value=a, ctx=ast.Load()), iters, guards, n, "extend-iterable"))
+    return out, (sorted(names)[0] if names else None)
+
+
+def exists_form(mod, fn, rd, params=(), helpers=None):
+    """Normal form of `is there an element with P`:
+         for v in IT: if P: return True ; return False        |  return any(P for v in IT)
+    -> (iterable canonical text, variable, predicate node, node) or None."""
+    def cn(e, at):
+        return canon(e, rd, at, params, helpers)
+
+    for r in walk_no_nested(fn):
+        if isinstance(r, ast.Return) and isinstance(r.value, ast.Call) and norm(r.value.func) == "any" and r.value.args and isinstance(r.value.args[0], (ast.GeneratorExp, ast.ListComp)):
+            g = r.value.args[0]
+            if len(g.generators) == 1 and not g.generators[0].ifs:
+                return cn(g.generators[0].iter, r), norm(g.generators[0].target), g.elt, r
+    loops = [n for n in fn.body if isinstance(n, ast.For)]
+    if len(loops) == 1:
+        lp = loops[0]
+        tail = fn.body[fn.body.index(lp) + 1:]
+        tail = [s for s in tail if not (isinstance(s, ast.Expr) and isinstance(s.value, ast.Constant))]
+        if len(lp.body) == 1 and isinstance(lp.body[0], ast.If) and not lp.body[0].orelse and len(lp.body[0].body) == 1 and isinstance(lp.body[0].body[0], ast.Return) and isinstance(lp.body[0].body[0].value, ast.Constant) and lp.body[0].body[0].value.value is True and len(tail) == 1 and isinstance(tail[0], ast.Return) and isinstance(tail[0].value, ast.Constant) and tail[0].value.value is False:
+            return cn(lp.iter, lp), norm(lp.target), lp.body[0].test, lp
+    return None
+
+
+def truth_dnf(mod, fn, rd, params=(), helpers=None):
+    """Disjunctive normal form of a predicate function: it answers True iff one of the returned conjunctions holds.
+    Each conjunction is a list of (canonical text, polarity).  `return A and B`, `if not A: return False ... return B`
+    and nested single-return helpers give the same form.  A returned value that is neither a constant nor a
+    conjunction is one conjunct."""
+    out = []
+    for c in result_cases(mod, fn, rd, params, skip_asserts=True):
+        v = c.value
+        if v is None or (isinstance(v, ast.Constant) and v.value in (False, None)):
+            continue
+        conj = [(t, p) for t, p, _n in c.guards]
+        if not (isinstance(v, ast.Constant) and v.value is True):
+            txt = canon(v, rd, c.stmt, params, helpers)
+            try:
+                vn = ast.parse(txt, mode="eval").body
+            except SyntaxError:
+                vn = v
+            stack = [(vn, True)]
+            while stack:
+                e, pol = stack.pop()
+                if isinstance(e, ast.BoolOp) and isinstance(e.op, ast.And) and pol:
+                    stack.extend((x, True) for x in e.values)
+                elif isinstance(e, ast.BoolOp) and isinstance(e.op, ast.Or) and not pol:
+                    stack.extend((x, False) for x in e.values)
+                elif isinstance(e, ast.UnaryOp) and isinstance(e.op, ast.Not):
+                    stack.append((e.operand, not pol))
+                else:
+                    conj.append((" ".join(ast.unparse(e).split()), pol))
+        # guards themselves may be conjunctions after canonicalisation with helper inlining
+        flat = []
+        for t, p in conj:
+            try:
+                e = ast.parse(t, mode="eval").body
+            except SyntaxError:
+                flat.append((t, p))
+                continue
+            stack = [(e, p)]
+            while stack:
+                e2, pol = stack.pop()
+                if isinstance(e2, ast.BoolOp) and isinstance(e2.op, ast.And) and pol:
+                    stack.extend((x, True) for x in e2.values)
+                elif isinstance(e2, ast.BoolOp) and isinstance(e2.op, ast.Or) and not pol:
+                    stack.extend((x, False) for x in e2.values)
+                elif isinstance(e2, ast.UnaryOp) and isinstance(e2.op, ast.Not):
+                    stack.append((e2.operand, not pol))
+                else:
+                    flat.append((" ".join(ast.unparse(e2).split()), pol))
+        out.append(sorted(set(flat)))
+    return out
+
+
+def backward_slice(fn, rd, expr, helpers=None, prov=None, depth=0, seen=None):
+    """All expression nodes the value of `expr` may be computed from inside fn: expr itself, the defining
+    expressions of the locals it reads (through loops, unpacking, comprehensions), and the bodies' return
+    expressions of local helpers it calls (with their arguments)."""
+    seen = seen if seen is not None else set()
+    out = []
+    if expr is None or depth > 8 or id(expr) in seen:
+        return out
+    seen.add(id(expr))
+    out.append(expr)
+    for x in ast.walk(expr):
+        if isinstance(x, ast.Name) and isinstance(x.ctx, ast.Load):
+            if prov is not None and id(x) in prov.comp_bind:
+                out += backward_slice(fn, rd, prov.comp_bind[id(x)], helpers, prov, depth + 1, seen)
+            for d in rd.defs(x.id, x):
+                if d.node is not None and d.kind in ("assign", "for", "unpack", "with", "aug"):
+                    out += backward_slice(fn, rd, d.node, helpers, prov, depth + 1, seen)
+            # what was put into a container held by this local
+            for c in ast.walk(fn):
+                if isinstance(c, ast.Call) and isinstance(c.func, ast.Attribute) and isinstance(c.func.value, ast.Name) and c.func.value.id == x.id and c.func.attr in ("append", "extend", "add", "update", "insert") and id(c) not in seen:
+                    seen.add(id(c))
+                    for a in c.args:
+                        out += backward_slice(fn, rd, a, helpers, prov, depth + 1, seen)
+        elif isinstance(x, ast.Call) and helpers is not None:
+            f = x.func
+            h = None
+            if isinstance(f, ast.Attribute) and isinstance(f.value, ast.Name) and f.value.id in ("self", "cls"):
+                h = helpers.get(("m", f.attr))
+            elif isinstance(f, ast.Name):
+                h = helpers.get(("f", f.id))
+            if h is not None and id(h) not in seen:
+                seen.add(id(h))
+                for r in ast.walk(h):
+                    if isinstance(r, ast.Return) and r.value is not None:
+                        out.append(r.value)
+    return out
